@@ -105,8 +105,12 @@ def check_topo(prog: Program, res: Result, fi=None, R: str = "C17-topo", direct:
         if ok:
             b = builds[0]
             g0 = b.gens[0] if b.gens else None
-            ok = len(b.gens) == 1 and not b.conds and g0 is not None and norm(g0.iter) == param and isinstance(b.elt, ast.Tuple) and len(b.elt.elts) == 2 \
-                and "src" in norm(b.elt.elts[0]) and "dst" in norm(b.elt.elts[1]) and all(norm(g0.target) in astq.names_in(e) for e in b.elt.elts)
+            le0 = astq.loop_elems(g0, fi.node) if g0 is not None else None
+            elt0 = b.elt
+            if isinstance(elt0, ast.Name) and isinstance(b.site, ast.Call):      # edge = (src, dst); edges.append(edge)
+                elt0 = astq.expand_at(fi.node, elt0, enclosing_stmt(b.site), keep=sorted(astq.target_names(g0.target)) if g0 is not None else [])
+            ok = len(b.gens) == 1 and not b.conds and le0 is not None and norm(le0.seq) == param and le0.elem is not None and isinstance(elt0, ast.Tuple) and len(elt0.elts) == 2 \
+                and "src" in norm(elt0.elts[0]) and "dst" in norm(elt0.elts[1]) and all(le0.elem in astq.names_in(e) for e in elt0.elts)
         res.ob(R, ok, fi.qualname, "edges = [(src, dst) for every given edge type]",
                f"the edge list `{edges_name}` is not every edge as (source, destination)", fi.where,
                sample=short(builds[0].site, 90) if builds else None)
@@ -157,6 +161,12 @@ def check_topo(prog: Program, res: Result, fi=None, R: str = "C17-topo", direct:
                     le_ = astq.loop_elems(lp_, fi.node) if isinstance(lp_, ast.For) else None
                     if le_ is not None and norm(le_.seq) == edges_name and norm(c_.args[0]) == le_.elem and norm(c_.args[1]) == le_.index:
                         return True
+                    # ... or the map is filled in the very loop that builds the edge list: the i-th iteration appends E and files E -> i
+                    if le_ is not None and le_.index is not None and norm(c_.args[1]) == le_.index and isinstance(lp_, ast.For):
+                        apps_ = [a_ for a_ in astq.method_calls(lp_, "append") if norm(a_.func.value) == edges_name and a_.args]
+                        if len(apps_) == 1 and enclosing_stmt(apps_[0]) in lp_.body and enclosing_stmt(c_) in lp_.body and norm(apps_[0].args[0]) == norm(c_.args[0]) \
+                                and not any(isinstance(x_, (ast.Continue, ast.Break)) for x_ in ast.walk(lp_)):
+                            return True
         return False
 
     ok_map = build is not None and len(build.gens) == 1 and not build.conds
